@@ -32,7 +32,26 @@ fn extreme(bits: u32) -> BoxedStrategy<u64> {
 }
 
 pub fn words_strategy(bits: u32) -> BoxedStrategy<Vec<u64>> {
-    lattice::with_related_operands(proptest::collection::vec(extreme(bits), NWORDS).boxed(), bits)
+    // besides per-word extremes: whole operand sets that are small (products and squares underflow while sums and
+    // differences do not) or large (products overflow), with ordinary mantissas and signs
+    let (small, large): (BoxedStrategy<u64>, BoxedStrategy<u64>) = if bits == 32 {
+        (
+            (40u32..=110, 0u32..(1 << 23), any::<bool>()).prop_map(|(e, m, s)| (((s as u32) << 31) | (e << 23) | m) as u64).boxed(),
+            (170u32..=253, 0u32..(1 << 23), any::<bool>()).prop_map(|(e, m, s)| (((s as u32) << 31) | (e << 23) | m) as u64).boxed(),
+        )
+    } else {
+        (
+            (200u64..=900, 0u64..(1 << 52), any::<bool>()).prop_map(|(e, m, s)| ((s as u64) << 63) | (e << 52) | m).boxed(),
+            (1300u64..=2045, 0u64..(1 << 52), any::<bool>()).prop_map(|(e, m, s)| ((s as u64) << 63) | (e << 52) | m).boxed(),
+        )
+    };
+    let vecs = prop_oneof![
+        88 => proptest::collection::vec(extreme(bits), NWORDS),
+        6 => proptest::collection::vec(small, NWORDS),
+        6 => proptest::collection::vec(large, NWORDS),
+    ]
+    .boxed();
+    lattice::with_related_operands(vecs, bits)
 }
 
 fn special(bits: u32, w: u64) -> bool {
